@@ -657,3 +657,116 @@ func exclusiveCallees(p *Program, root *ssa.Function) map[*ssa.Function]bool {
 	}
 	return set
 }
+
+// nonNegAt: v is provably >= 0 where it is used in block `at` of its function: a non-negative constant, len/cap, a
+// value already used as a slice bound or index in a block dominating `at` (it would have panicked otherwise), a value
+// behind a dominating `v >= 0` / `!(v < 0)` edge, a sum of such values, or a phi of such values.
+func nonNegAt(v ssa.Value, at *ssa.BasicBlock, depth int) bool {
+	if depth > 6 || v == nil {
+		return false
+	}
+	if k, ok := constInt(v); ok {
+		return k >= 0
+	}
+	if call, ok := v.(*ssa.Call); ok {
+		if _, isLen := isBuiltinCall(call, "len"); isLen {
+			return true
+		}
+		if _, isCap := isBuiltinCall(call, "cap"); isCap {
+			return true
+		}
+	}
+	fn := at.Parent()
+	// used as a bound/index in a dominating block
+	for _, r := range refsOf(v) {
+		switch x := r.(type) {
+		case *ssa.Slice:
+			if (x.Low == v || x.High == v || x.Max == v) && x.Block().Dominates(at) {
+				return true
+			}
+		case *ssa.IndexAddr:
+			if x.Index == v && x.Block().Dominates(at) {
+				return true
+			}
+		}
+	}
+	// dominating sign test
+	for _, b := range fn.Blocks {
+		iff := blockIf(b)
+		if iff == nil {
+			continue
+		}
+		bo, ok := iff.Cond.(*ssa.BinOp)
+		if !ok || bo.X != v {
+			continue
+		}
+		k, isC := constInt(bo.Y)
+		if !isC {
+			continue
+		}
+		edge := -1
+		switch {
+		case bo.Op == token.GEQ && k >= 0, bo.Op == token.GTR && k >= -1:
+			edge = 0
+		case bo.Op == token.LSS && k <= 0, bo.Op == token.LEQ && k <= -1:
+			edge = 1
+		case bo.Op == token.EQL && k < 0:
+			// v == -1 false edge says nothing about other negatives, except for search results (IndexX returns >= -1)
+			if call, ok := v.(*ssa.Call); ok {
+				if f := call.Call.StaticCallee(); f != nil && f.Pkg != nil && (f.Pkg.Pkg.Path() == "bytes" || f.Pkg.Pkg.Path() == "strings") && strings.HasPrefix(f.Name(), "Index") && k == -1 {
+					edge = 1
+				}
+			}
+		}
+		if edge >= 0 && edgeDominates(b, edge, at) {
+			return true
+		}
+	}
+	switch x := v.(type) {
+	case *ssa.BinOp:
+		if x.Op == token.ADD {
+			return nonNegAt(x.X, at, depth+1) && nonNegAt(x.Y, at, depth+1)
+		}
+	case *ssa.Phi:
+		for i, e := range x.Edges {
+			if e == v {
+				continue
+			}
+			if !nonNegAt(e, x.Block().Preds[i], depth+1) {
+				return false
+			}
+		}
+		return true
+	case *ssa.Convert:
+		return nonNegAt(x.X, at, depth+1)
+	}
+	return false
+}
+
+// negativeImpliesParam: for module function g with a bool parameter at index pi, reports whether every return reachable
+// when that parameter is `val` yields a provably non-negative result — i.e. a negative result implies the parameter
+// was !val (the "−1 means: need more input" convention).
+func negativeImpliesParam(p *Program, g *ssa.Function, pi int, val bool) bool {
+	if g == nil || g.Blocks == nil || pi >= len(g.Params) {
+		return false
+	}
+	prm := g.Params[pi]
+	if b, ok := prm.Type().Underlying().(*types.Basic); !ok || b.Kind() != types.Bool {
+		return false
+	}
+	bs := newBSET(p)
+	d := int64(0)
+	if val {
+		d = 1
+	}
+	reach := bs.reachUnderSym(g, func(v ssa.Value) bool { return v == ssa.Value(prm) }, []int64{d})
+	for _, r := range returnsOf(g) {
+		if !reach[r.Block()][d] {
+			continue
+		}
+		if len(r.Results) != 1 || !nonNegAt(r.Results[0], r.Block(), 0) {
+			return false
+		}
+	}
+	return true
+}
